@@ -349,11 +349,14 @@ impl LocalPeerService {
                     }
                 }
             }
-            let acquere = acquired_lock.lock().await;
+            //the rooms are taken out of the set: a synchronisation task that is still running
+            //will not find its room anymore and will not release it a second time
+            let mut acquere = acquired_lock.lock().await;
             let mut rooms: Vec<Uid> = Vec::new();
-            for room in acquere.iter() {
-                rooms.push(*room);
+            for room in acquere.drain() {
+                rooms.push(room);
             }
+            drop(acquere);
             //locks granted but not yet processed must be released too
             lock_receiver.close();
             while let Ok(room) = lock_receiver.try_recv() {
@@ -504,8 +507,11 @@ impl LocalPeerService {
                 }
             };
 
-            lock_service.unlock(room).await;
-            acquired_lock.lock().await.remove(&room);
+            //the lock is released by whoever removes the room from the set: this task or the connection cleanup
+            let still_held = acquired_lock.lock().await.remove(&room);
+            if still_held {
+                lock_service.unlock(room).await;
+            }
         });
 
         Ok(())
